@@ -1,10 +1,29 @@
 import FqModel.Gaps
+import Proofs.Gaps
 /-!
   C04 — property theorems about the model of `ranges.Gaps` (FqModel/Gaps.lean).
   Helper lemmas live in Proofs/Gaps.lean.
+
+  Full statement of the property at the level of `ranges.Gaps` (what `D.FillGaps` relies on):
+    for every buffer `total = 0:n` and every finite list `rs` of (possibly empty) ranges inside it,
+      (a) no bit of a gap lies in a range                                  — `gaps_disjoint`   (proved)
+      (b) every gap lies inside the buffer                                  — `gaps_within`     (proved)
+      (c) every bit of the buffer outside all ranges lies in a gap          — FALSE of the code as it is
+          (`gaps_hole_witness`); proved is `gaps_cover_partial`: … lies in a gap OR is a one-bit hole
+          between a range that stops at the bit and a range that starts one bit later (the exact class
+          of the known finding `one-bit-hole`); and the full (c) for the one-character repair
+          `m.Stop() >= ranges[j].Start` — `gapsFixed_cover`.
+      (d) the result does not depend on the order of the input (unstable sort) — `gaps_perm`.
 -/
 namespace Props.C04
-open FqModel.Gaps
+open FqModel.Gaps Proofs.Gaps
+
+/-- H: what `D.FillGaps` passes to `ranges.Gaps` (decode.go:349, :149): the buffer starts at
+    bit 0 and the leaf ranges are non-negative-length ranges inside it. -/
+abbrev H (total : Range) (rs : List Range) : Prop :=
+  total.start = 0 ∧ ∀ r ∈ rs, 0 ≤ r.start ∧ 0 ≤ r.len ∧ r.stop ≤ total.len
+
+/-! ### the known finding, pinned by evaluation -/
 
 /-- Known finding (DESIGN §1.8 #2): the full coverage statement is FALSE of the current
     algorithm — bit 7 of a 10-bit buffer with fields 1:1 2:5 8:1 is neither in a field nor
@@ -23,6 +42,110 @@ theorem gaps_hole_witness_empty :
 /-- the one-character repair closes the witness -/
 theorem gapsFixed_witness :
     gapsFixed ⟨0, 10⟩ [⟨1, 1⟩, ⟨2, 5⟩, ⟨8, 1⟩] = [⟨0, 1⟩, ⟨7, 1⟩, ⟨9, 1⟩] := by
+  decide
+
+/-- the full coverage statement, negated for the code as it is (so `gaps_cover_partial`
+    cannot be strengthened): H holds, bit 7 is in the buffer, in no field and in no gap -/
+theorem gaps_full_cover_false :
+    ¬ (∀ (total : Range) (rs : List Range) (b : Int), H total rs → 0 ≤ b → b < total.len →
+        covered rs b = false → covered (gaps total rs) b = true) := by
+  intro h
+  have := h ⟨0, 10⟩ [⟨1, 1⟩, ⟨2, 5⟩, ⟨8, 1⟩] 7 (by decide) (by decide) (by decide) (by decide)
+  revert this
+  decide
+
+/-! ### theorems for all lists of ranges and all buffer sizes -/
+
+/-- (a) a gap never overlaps a field -/
+theorem gaps_disjoint (total : Range) (rs : List Range) (h : H total rs) (b : Int) :
+    covered (gaps total rs) b = true → covered rs b = false := by
+  intro hg
+  exact (covered_false_iff rs b).mpr
+    (gapsWith_disjoint 1 (by decide) total rs h b ((covered_iff _ b).mp hg))
+
+/-- (b) gaps are non-negative-length ranges inside the buffer -/
+theorem gaps_within (total : Range) (rs : List Range) (h : H total rs) (hlen : 0 ≤ total.len) :
+    ∀ g ∈ gaps total rs, 0 ≤ g.start ∧ 0 ≤ g.len ∧ g.stop ≤ total.len :=
+  gapsWith_within 1 (by decide) total rs h hlen
+
+/-- (c), weakened by exactly the known defect class: an uncovered bit of the buffer is in a
+    gap or is a one-bit hole.  MISSING for the full statement: the `oneBitHole` disjunct cannot
+    be dropped (`gaps_full_cover_false`). -/
+theorem gaps_cover_partial (total : Range) (rs : List Range) (h : H total rs) (b : Int)
+    (hb0 : 0 ≤ b) (hb1 : b < total.len) :
+    covered rs b = false → covered (gaps total rs) b = true ∨ oneBitHole rs b = true := by
+  intro hc
+  have hc' := (covered_false_iff rs b).mp hc
+  rcases gapsWith_cover 1 (Or.inr rfl) total rs h b hb0 hb1 hc' with hg | ⟨_, h2, h3⟩
+  · exact Or.inl ((covered_iff _ b).mpr hg)
+  · exact Or.inr ((oneBitHole_iff rs b).mpr ⟨hc', h2, h3⟩)
+
+/-- (c) in full for the one-character repair `m.Stop() >= ranges[j].Start` -/
+theorem gapsFixed_cover (total : Range) (rs : List Range) (h : H total rs) (b : Int)
+    (hb0 : 0 ≤ b) (hb1 : b < total.len) :
+    covered rs b = false → covered (gapsFixed total rs) b = true := by
+  intro hc
+  rcases gapsWith_cover 0 (Or.inl rfl) total rs h b hb0 hb1 ((covered_false_iff rs b).mp hc) with hg | ⟨h1, _⟩
+  · exact (covered_iff _ b).mpr hg
+  · exact absurd h1 (by decide)
+
+theorem gapsFixed_disjoint (total : Range) (rs : List Range) (h : H total rs) (b : Int) :
+    covered (gapsFixed total rs) b = true → covered rs b = false := by
+  intro hg
+  exact (covered_false_iff rs b).mpr
+    (gapsWith_disjoint 0 (by decide) total rs h b ((covered_iff _ b).mp hg))
+
+theorem gapsFixed_within (total : Range) (rs : List Range) (h : H total rs) (hlen : 0 ≤ total.len) :
+    ∀ g ∈ gapsFixed total rs, 0 ≤ g.start ∧ 0 ≤ g.len ∧ g.stop ≤ total.len :=
+  gapsWith_within 0 (by decide) total rs h hlen
+
+/-- fields and gaps of the repaired algorithm partition the buffer: every bit of the buffer
+    is in exactly one of the two -/
+theorem gapsFixed_partition (total : Range) (rs : List Range) (h : H total rs) (b : Int)
+    (hb0 : 0 ≤ b) (hb1 : b < total.len) :
+    covered (gapsFixed total rs) b = !covered rs b := by
+  cases hc : covered rs b with
+  | false => exact gapsFixed_cover total rs h b hb0 hb1 hc
+  | true =>
+    cases hg : covered (gapsFixed total rs) b with
+    | false => rfl
+    | true => have := gapsFixed_disjoint total rs h b hg; rw [hc] at this; cases this
+
+/-- (d) the order in which the ranges are given (hence the order in which an unstable sort
+    leaves equal starts) does not matter -/
+theorem gaps_perm (total : Range) (rs rs' : List Range) (hlen : ∀ r ∈ rs, 0 ≤ r.len)
+    (hp : rs.Perm rs') : gaps total rs = gaps total rs' :=
+  gapsWith_perm 1 (by decide) total rs rs' hlen hp
+
+theorem gapsFixed_perm (total : Range) (rs rs' : List Range) (hlen : ∀ r ∈ rs, 0 ≤ r.len)
+    (hp : rs.Perm rs') : gapsFixed total rs = gapsFixed total rs' :=
+  gapsWith_perm 0 (by decide) total rs rs' hlen hp
+
+/-! ### non-vacuity: the hypotheses are satisfiable by non-trivial values, and each conclusion
+    is exercised on them -/
+
+/-- H holds of a buffer with overlapping, adjacent, empty and one-bit-distant fields -/
+example : H ⟨0, 12⟩ [⟨4, 4⟩, ⟨0, 0⟩, ⟨6, 3⟩, ⟨10, 1⟩, ⟨12, 0⟩] := by decide
+
+/-- gaps_disjoint: premise `covered (gaps …) b = true` is satisfiable (bit 2 is in gap 0:4) -/
+example : covered (gaps ⟨0, 12⟩ [⟨4, 4⟩, ⟨0, 0⟩, ⟨6, 3⟩, ⟨10, 1⟩, ⟨12, 0⟩]) 2 = true := by decide
+
+/-- gaps_within: a non-empty list of gaps -/
+example : gaps ⟨0, 12⟩ [⟨4, 4⟩, ⟨0, 0⟩, ⟨6, 3⟩] = [⟨0, 4⟩, ⟨9, 3⟩] := by decide
+
+/-- gaps_cover_partial: both disjuncts occur — bit 11 is in a gap, bit 9 is a one-bit hole -/
+example :
+    let rs : List Range := [⟨4, 4⟩, ⟨0, 0⟩, ⟨6, 3⟩, ⟨10, 1⟩]
+    covered rs 11 = false ∧ covered (gaps ⟨0, 12⟩ rs) 11 = true ∧
+    covered rs 9 = false ∧ covered (gaps ⟨0, 12⟩ rs) 9 = false ∧ oneBitHole rs 9 = true := by decide
+
+/-- gapsFixed_cover / gapsFixed_disjoint / gapsFixed_partition on the same value -/
+example :
+    gapsFixed ⟨0, 12⟩ [⟨4, 4⟩, ⟨0, 0⟩, ⟨6, 3⟩, ⟨10, 1⟩, ⟨12, 0⟩] = [⟨0, 4⟩, ⟨9, 1⟩, ⟨11, 1⟩] := by decide
+
+/-- gaps_perm: a non-trivial permutation with equal starts -/
+example : ([⟨4, 4⟩, ⟨4, 0⟩, ⟨0, 2⟩] : List Range).Perm [⟨4, 0⟩, ⟨0, 2⟩, ⟨4, 4⟩] ∧
+    ∀ r ∈ ([⟨4, 4⟩, ⟨4, 0⟩, ⟨0, 2⟩] : List Range), 0 ≤ r.len := by
   decide
 
 end Props.C04
